@@ -33,8 +33,7 @@ theorem swapList_getElem? {α : Type} (l : List α) (i j k : Nat) (hi : i < l.le
 theorem entryM_eq_entry (P : Mat) (i j : Nat) : entryM P i j = entry P i j := rfl
 
 theorem entryM_congr (W W' : Mat) (i j : Nat) (h : W'[i]? = W[i]?) : entryM W' i j = entryM W i j := by
-  unfold entryM
-  rw [List.getD_eq_getElem?_getD, List.getD_eq_getElem?_getD, h]
+  simp only [entryM, List.getD_eq_getElem?_getD, h]
 
 theorem col_getD (P : Mat) (i j : Nat) :
     (P.map (fun r => r.getD j 0)).getD i 0 = entryM P i j := by
@@ -325,5 +324,246 @@ theorem unlock_core {s s' : St} {H : List (Nat × Nat)} {tn tn' : Nat} (e pnOld 
         rw [List.getElem?_set_ne (fun h => hbe h.symm)] at h2
         exact h.inj a b q ha hb h1 h2
   · rw [h0]; exact h.l0
+
+/-! ### one pick: choose `(t, e)` with positive probability, swap, lock `e` -/
+
+theorem prob_pos {s : St} {H : List (Nat × Nat)} {tn : Nat} (h : Core s H tn) (t e : Nat)
+    (hpos : 0 < entryM (prob s) t e) :
+    s.locks[t]? = some false ∧ s.locks[e]? = some false ∧ entryM s.W t e ≠ 0 := by
+  have hW : s.W.length = s.locks.length := by rw [h.lenW, h.lenL]
+  exact ⟨probMatrix_pos_unlocked_row s.W s.locks hW t e hpos,
+    probMatrix_pos_unlocked_col s.W s.locks hW t e hpos,
+    probMatrix_pos_entry_ne_zero s.W s.locks hW t e hpos⟩
+
+theorem AuxEq.swap (s : St) (i j : Nat) : AuxEq s (swap s i j) := ⟨rfl, rfl, rfl, rfl, rfl, rfl, rfl, rfl, rfl⟩
+
+theorem lock_ok {s s' : St} {e : Nat} (h : lock s e = .ok s') :
+    s.locks[e]? = some false ∧ s' = { s with locks := s.locks.set e true } := by
+  unfold lock at h
+  split at h
+  · rename_i hl
+    exact ⟨hl, by injection h with h; exact h.symm⟩
+  · exact absurd h (by simp)
+  · exact absurd h (by simp)
+
+theorem unlock_ok {s s' : St} {e : Nat} (h : unlock s e = .ok s') :
+    s.locks[e]? = some true ∧ s' = { s with locks := s.locks.set e false } := by
+  unfold unlock at h
+  split at h
+  · rename_i hl
+    exact ⟨hl, by injection h with h; exact h.symm⟩
+  · exact absurd h (by simp)
+  · exact absurd h (by simp)
+
+/-- the elementary step of `pick`: a positive-probability `(t, e)`, `swap(t, e)`, `lock(e)` -/
+theorem lockStep_core {s s2 : St} {H : List (Nat × Nat)} {tn : Nat} (h : Core s H tn) (t e : Nat)
+    (hpos : 0 < entryM (prob s) t e) (hl : lock (swap s t e) e = .ok s2) :
+    ∃ pn, s2.trajs.getD e none = some pn ∧ Core s2 ((e, pn) :: H) tn ∧ AuxEq s s2 ∧
+      s.locks[t]? = some false ∧ s.locks[e]? = some false ∧ s2.locks = s.locks.set e true := by
+  obtain ⟨ht, he, hw⟩ := prob_pos h t e hpos
+  have hc := swap_core h t e ht he
+  obtain ⟨_, hs2⟩ := lock_ok hl
+  have ht' := h.unlocked_lt t ht
+  have he' := h.unlocked_lt e he
+  have htT : t < s.trajs.length := by rw [h.lenT]; omega
+  have heT : e < s.trajs.length := by rw [h.lenT]; omega
+  have htW : t < s.W.length := by rw [h.lenW]; omega
+  have heW : e < s.W.length := by rw [h.lenW]; omega
+  obtain ⟨pn, hpn, _⟩ := h.live t ht'
+  have hTe : (swap s t e).trajs[e]? = some (some pn) := by
+    show (swapList s.trajs t e)[e]? = _
+    rw [swapList_getElem? _ _ _ _ htT heT, if_pos rfl]; exact hpn
+  have hWe : (swap s t e).W[e]? = s.W[t]? := by
+    show (swapList s.W t e)[e]? = _
+    rw [swapList_getElem? _ _ _ _ htW heW, if_pos rfl]
+  have hwe : entryM (swap s t e).W e e ≠ 0 := by
+    have : entryM (swap s t e).W e e = entryM s.W t e := by
+      simp only [entryM, List.getD_eq_getElem?_getD, hWe]
+    rw [this]; exact hw
+  subst hs2
+  refine ⟨pn, ?_, ?_, ⟨rfl, rfl, rfl, rfl, rfl, rfl, rfl, rfl, rfl⟩, ht, he, rfl⟩
+  · show (swap s t e).trajs.getD e none = some pn
+    rw [List.getD_eq_getElem?_getD, hTe]; rfl
+  · exact lock_core hc e pn he hTe hwe rfl rfl rfl rfl rfl
+
+/-- (ens_num, path) pairs as the model's `pick` returns them -/
+def pairsOf (L : List (Int × Nat)) : List (Int × Option Nat) := L.map (fun x => (x.1, some x.2))
+
+/-- (slot, path) entries of a list of (ens_num, path) -/
+def slotsOf (L : List (Int × Nat)) : List (Nat × Nat) := L.map (fun x => ((x.1 + 1).toNat, x.2))
+
+/-- **`pick()` without the bookkeeping.**  The result holds one ensemble, or exactly `[0-]` and
+    `[0+]`; the latter only if both were idle before the pick. -/
+theorem pickCore_core {s s' : St} {H : List (Nat × Nat)} {tn : Nat} (h : Core s H tn) (o : PickOutcome)
+    (pairs : List (Int × Option Nat)) (ds : List Draw) (hp : pickCore s o = .ok (s', pairs, ds)) :
+    ∃ L : List (Int × Nat), pairs = pairsOf L ∧ Core s' (slotsOf L ++ H) tn ∧ AuxEq s s' ∧
+      (L.length = 1 ∨ (L.map Prod.fst = [-1, 0] ∧
+        s.locks[0]? = some false ∧ s.locks[1]? = some false)) ∧ (∀ x ∈ L, -1 ≤ x.1) := by
+  unfold pickCore at hp
+  simp only [] at hp
+  split at hp
+  · exact absurd hp (by simp)
+  rename_i hpos
+  have hpos : 0 < entryM (prob s) o.t o.e := Classical.not_not.mp hpos
+  split at hp
+  · exact absurd hp (by simp)
+  rename_i s2 hl
+  obtain ⟨pn, hpn, hc2, ha2, hlt, hle, hL2⟩ := lockStep_core h o.t o.e hpos hl
+  have he' := h.unlocked_lt o.e hle
+  split at hp
+  · -- zero swap
+    rename_i hzs
+    simp only [Bool.and_eq_true, Bool.or_eq_true] at hzs
+    by_cases he1 : (o.e == off) = true
+    · have he1' : o.e = 1 := by simpa [off] using he1
+      simp only [he1, ↓reduceIte] at hp
+      split at hp
+      · exact absurd hp (by simp)
+      rename_i hpos2
+      rw [col_getD] at hpos2
+      have hpos2 : 0 < entryM (prob s2) o.partner (off - 1) := Classical.not_not.mp hpos2
+      split at hp
+      · exact absurd hp (by simp)
+      rename_i s4 hl4
+      obtain ⟨pn2, hpn2, hc4, ha4, _, hlo, _⟩ := lockStep_core hc2 _ _ hpos2 hl4
+      simp only [Except.ok.injEq, Prod.mk.injEq] at hp
+      obtain ⟨rfl, hpairs, _⟩ := hp
+      rw [hpn, hpn2] at hpairs
+      refine ⟨[(-1, pn2), (0, pn)], hpairs.symm, ?_, ha2.trans ha4, Or.inr ⟨rfl, ?_, ?_⟩, by simp⟩
+      · have : slotsOf [((-1 : Int), pn2), (0, pn)] = [(off - 1, pn2), (o.e, pn)] := by
+          simp [slotsOf, off, he1']
+        rw [this]
+        exact hc4
+      · rw [hL2, he1', List.getElem?_set_ne (by decide)] at hlo
+        simpa [off] using hlo
+      · rw [← he1']; exact hle
+    · have he0 : o.e = 0 := by
+        rcases hzs.1 with hz | hz
+        · exact absurd hz.1 he1
+        · simpa [off] using hz.1
+      have he1f : (o.e == off) = false := by simpa using he1
+      simp only [he1f, Bool.false_eq_true, ↓reduceIte] at hp
+      split at hp
+      · exact absurd hp (by simp)
+      rename_i hpos2
+      rw [col_getD] at hpos2
+      have hpos2 : 0 < entryM (prob s2) o.partner off := Classical.not_not.mp hpos2
+      split at hp
+      · exact absurd hp (by simp)
+      rename_i s4 hl4
+      obtain ⟨pn2, hpn2, hc4, ha4, _, hlo, _⟩ := lockStep_core hc2 _ _ hpos2 hl4
+      simp only [Except.ok.injEq, Prod.mk.injEq] at hp
+      obtain ⟨rfl, hpairs, _⟩ := hp
+      rw [hpn, hpn2] at hpairs
+      refine ⟨[(-1, pn), (0, pn2)], hpairs.symm, ?_, ha2.trans ha4, Or.inr ⟨rfl, ?_, ?_⟩, by simp⟩
+      · have : slotsOf [((-1 : Int), pn), (0, pn2)] = [(o.e, pn), (off, pn2)] := by
+          simp [slotsOf, off, he0]
+        rw [this]
+        exact hc4.perm (List.Perm.swap _ _ _)
+      · rw [← he0]; exact hle
+      · rw [hL2, he0, List.getElem?_set_ne (by decide)] at hlo
+        simpa [off] using hlo
+  · simp only [Except.ok.injEq, Prod.mk.injEq] at hp
+    obtain ⟨rfl, hpairs, _⟩ := hp
+    rw [hpn] at hpairs
+    refine ⟨[((o.e : Int) - (off : Int), pn)], hpairs.symm, ?_, ha2, Or.inl rfl,
+      by simp [off]⟩
+    have : slotsOf [((o.e : Int) - (off : Int), pn)] = [(o.e, pn)] := by
+      simp [slotsOf, off]
+    rw [this]
+    exact hc2
+
+/-! ### `mkPicked`, `pick`, `pick_lock` -/
+
+/-- (slot, path) entries of a list of picked ensembles -/
+def heldPicked (ps : List Picked) : List (Nat × Nat) := ps.map (fun p => (slotOf p, p.pn))
+
+theorem mkPicked_go_spec (child : Stream) : ∀ (L : List (Int × Nat)) (j : Nat) (ps : List Picked),
+    mkPicked.go child j (pairsOf L) = .ok ps →
+      ps.map (fun p => (p.ens, p.pn)) = L ∧ ∀ p ∈ ps, p.engIdx = [] := by
+  intro L
+  induction L with
+  | nil =>
+    intro j ps h
+    simp only [pairsOf, List.map_nil, mkPicked.go, Except.ok.injEq] at h
+    subst h
+    simp
+  | cons x L ih =>
+    intro j ps h
+    obtain ⟨e, pn⟩ := x
+    simp only [pairsOf, List.map_cons, mkPicked.go] at h
+    split at h
+    · exact absurd h (by simp)
+    · rename_i ps0 h0
+      have := ih (j + 1) ps0 h0
+      simp only [Except.ok.injEq] at h
+      subst h
+      refine ⟨by simp [this.1], ?_⟩
+      intro p hp
+      rcases List.mem_cons.mp hp with hp | hp
+      · subst hp; rfl
+      · exact this.2 p hp
+
+theorem heldPicked_of_map (ps : List Picked) (L : List (Int × Nat))
+    (h : ps.map (fun p => (p.ens, p.pn)) = L) : heldPicked ps = slotsOf L := by
+  subst h
+  simp [heldPicked, slotsOf, slotOf]
+
+/-- the shape of a job and the zero-swap precondition, as a predicate on the picked list and the
+    locks *before* the pick -/
+def PickShape (locksBefore : List Bool) (ps : List Picked) : Prop :=
+  ps.length = 1 ∨ (ps.map (·.ens) = [-1, 0] ∧
+    locksBefore[0]? = some false ∧ locksBefore[1]? = some false)
+
+theorem pick_core {s s' : St} {H : List (Nat × Nat)} {tn : Nat} (h : Core s H tn) (o : PickOutcome)
+    (ps : List Picked) (ds : List Draw) (hp : pick s o = .ok (s', ps, ds)) :
+    Core s' (heldPicked ps ++ H) tn ∧ AuxEq s s' ∧ (∀ p ∈ ps, p.engIdx = []) ∧
+      PickShape s.locks ps ∧ (∀ p ∈ ps, -1 ≤ p.ens) := by
+  unfold pick at hp
+  split at hp
+  · exact absurd hp (by simp)
+  rename_i s1 pairs ds1 hpc
+  obtain ⟨L, rfl, hc, ha, hshape, hge⟩ := pickCore_core h o pairs ds1 hpc
+  split at hp
+  · exact absurd hp (by simp)
+  rename_i ps1 hmk
+  unfold mkPicked at hmk
+  obtain ⟨hmap, heng⟩ := mkPicked_go_spec _ L 0 ps1 hmk
+  simp only [Except.ok.injEq, Prod.mk.injEq] at hp
+  obtain ⟨rfl, rfl, _⟩ := hp
+  refine ⟨?_, ?_, heng, ?_, ?_⟩
+  rotate_left 3
+  · intro p hp
+    exact hge (p.ens, p.pn) (by rw [← hmap]; exact List.mem_map.mpr ⟨p, hp, rfl⟩)
+  · rw [heldPicked_of_map ps1 L hmap]
+    exact hc.congr ⟨rfl, rfl, rfl, rfl, rfl⟩
+  · exact ha.trans ⟨rfl, rfl, rfl, rfl, rfl, rfl, rfl, rfl, rfl⟩
+  · have hlen : ps1.length = L.length := by rw [← hmap]; simp
+    have hens : ps1.map (·.ens) = L.map Prod.fst := by rw [← hmap]; simp
+    rcases hshape with h1 | h2
+    · exact Or.inl (by rw [hlen]; exact h1)
+    · exact Or.inr (by rw [hens]; exact h2)
+
+theorem restoreStreamOnce_coreEq (s : St) (d : Nat) : CoreEq s (restoreStreamOnce s d) := by
+  unfold restoreStreamOnce
+  split <;> exact ⟨rfl, rfl, rfl, rfl, rfl⟩
+
+theorem restoreStreamOnce_auxEq (s : St) (d : Nat) : AuxEq s (restoreStreamOnce s d) := by
+  unfold restoreStreamOnce
+  split <;> exact ⟨rfl, rfl, rfl, rfl, rfl, rfl, rfl, rfl, rfl⟩
+
+/-- `pick_lock()` on a state without jobs recorded in a restart file is `pick()` -/
+theorem pickLock_core {s s' : St} {H : List (Nat × Nat)} {tn : Nat} (h : Core s H tn) (o : PickOutcome)
+    (d : Nat) (ps : List Picked) (ds : List Draw) (hp : pickLock s o d = .ok (s', ps, ds)) :
+    Core s' (heldPicked ps ++ H) tn ∧ AuxEq s s' ∧ (∀ p ∈ ps, p.engIdx = []) ∧
+      PickShape s.locks ps ∧ (∀ p ∈ ps, -1 ≤ p.ens) := by
+  unfold pickLock at hp
+  rw [h.l0] at hp
+  simp only [] at hp
+  have hc := h.congr (restoreStreamOnce_coreEq s d)
+  obtain ⟨h1, h2, h3, h4, h5⟩ := pick_core hc o ps ds hp
+  refine ⟨h1, (restoreStreamOnce_auxEq s d).trans h2, h3, ?_, h5⟩
+  rw [(restoreStreamOnce_coreEq s d).locks] at h4
+  exact h4
 
 end Infretis.Repex
